@@ -81,7 +81,7 @@ def obligations(tier):
     nmax = 1 if tier == "quick" else 2
     for dia in ("PVL", "ODL", "PDS3", "ISIS"):
         for shape in rt.SHAPES:
-            if shape == "quant":
+            if shape in ("quant", "wrapunits"):
                 continue
             for n in range(0, nmax + 1):
                 obs.append(Repeat(dialect=dia, shape=shape, n=n, cfg="default", entry="encode"))
